@@ -109,7 +109,7 @@ def run(prop, tier, seed, ROOT, REPO, CACHE, OUT):
     os.utime(os.path.join(kdir, "src", "gen.rs"), None)
     to = HARNESS_TIMEOUT_T if tier == "thorough" else HARNESS_TIMEOUT_Q
     filt = " ".join(f"--harness gen::{h['name']}" for h in sel)
-    jobs = min(len(sel), os.cpu_count() or 8)
+    jobs = max(2, min(len(sel), os.cpu_count() or 8))
     cmd = f"ulimit -v {KANI_MEM_KB}; cargo kani --target-dir {tgt} -j {jobs} --output-format terse -Z unstable-options -Z stubbing --harness-timeout {to}s --exact {filt}"
     t0 = time.time()
     rc, out, dt = _sh(cmd, kdir, to * 3 + 1200)
